@@ -1,6 +1,7 @@
 //! avra-verif library: oracles, generators and per-property checks (see /verif/DESIGN.md).
 
 pub mod ast;
+pub mod decode;
 pub mod evidence;
 pub mod gen;
 pub mod ihex;
